@@ -372,9 +372,70 @@ fn cc_parse(x: &X) -> X {
     }
 }
 
+/// Real-vs-real oracle of C03: the same scenario on two hosts built from the same configuration, one with and one
+/// without the response cache; result = the operations whose replies differ on status, any header except
+/// `last-modified`, decoded body, identity body or stream: (L (L (N index) (B what)) ...). The model predicts (L).
+fn run_pair(x: &X) -> X {
+    let l = match x.as_l() {
+        Some(l) if l.len() == 2 => l,
+        _ => return X::bad(),
+    };
+    let cfg = match l[0].as_l() {
+        Some(c) => c,
+        None => return X::bad(),
+    };
+    let with = |cache: bool| -> X {
+        let mut c: Vec<X> = cfg
+            .iter()
+            .filter(|e| !matches!(e.as_l(), Some([n, _]) if matches!(n.as_b(), Some(b"cache") | Some(b"allhdr"))))
+            .cloned()
+            .collect();
+        c.push(X::L(vec![X::b("cache"), X::bool(cache)]));
+        c.push(X::L(vec![X::b("allhdr"), X::bool(true)]));
+        run_scenario(&X::L(vec![X::L(c), l[1].clone()]))
+    };
+    let (a, b) = (with(true), with(false));
+    let (la, lb) = match (a.as_l(), b.as_l()) {
+        (Some(la), Some(lb)) if la.len() == lb.len() && !matches!(la.first(), Some(X::N(_))) && !matches!(lb.first(), Some(X::N(_))) => (la, lb),
+        // harness trouble (timing) on either side
+        _ => return if matches!(a.as_l(), Some([X::N(93), ..])) { a } else { b },
+    };
+    let mut out = Vec::new();
+    for (i, (ra, rb)) in la.iter().zip(lb.iter()).enumerate() {
+        let (fa, fb) = match (ra.as_l(), rb.as_l()) {
+            (Some(fa), Some(fb)) if fa.len() == 7 && fb.len() == 7 => (fa, fb),
+            _ => continue,
+        };
+        let strip = |h: &X| -> Vec<X> {
+            h.as_l().map(|l| l.iter().filter(|p| !matches!(p.as_l(), Some([n, _]) if n.as_b() == Some(b"last-modified"))).cloned().collect()).unwrap_or_default()
+        };
+        let mut what = Vec::new();
+        if fa[0] != fb[0] {
+            what.push("status");
+        }
+        if strip(&fa[1]) != strip(&fb[1]) {
+            what.push("headers");
+        }
+        if fa[2] != fb[2] || fa[3] != fb[3] {
+            what.push("body");
+        }
+        if fa[4] != fb[4] {
+            what.push("identity");
+        }
+        if fa[6] != fb[6] {
+            what.push("stream");
+        }
+        if !what.is_empty() {
+            out.push(X::L(vec![X::n(i), X::b(what.join(",")), ra.clone(), rb.clone()]));
+        }
+    }
+    X::L(out)
+}
+
 pub fn dispatch(comp: &str, x: &X) -> Option<X> {
     Some(match comp {
         "pipex.run" => run_scenario(x),
+        "pipex.pair" => run_pair(x),
         "cc.parse" => cc_parse(x),
         _ => return None,
     })
